@@ -14,7 +14,8 @@ import warnings
 import numpy as np
 
 from sim.kernel import EventLog, PlanRng, Violation, call, sig
-from sim.seams import own_entropy, SolveSeam, ambient_perturb, import_dreye
+from sim.seams import (LineInterrupter, SimInterrupt, SolveSeam, ambient_perturb, import_dreye,
+                       own_entropy)
 
 ID = "C11"
 PANEL_PER_MODE = 2
@@ -143,7 +144,8 @@ def generate(rs, mode, tier, index):
             "solver": rng.choice(["SCS", "CLARABEL"], p=[0.6, 0.4]),
             "perturb": rng.integers(1, 10 ** 6)}
     if mode == "faults":
-        plan["fault"] = {"kind": "solver_error", "k": rng.integers(0, 30)}
+        plan["fault"] = {"kind": "solver_error", "k": rng.integers(0, 30),
+                         "frac": float(sig(rng.random(), 4))}
     return plan
 
 
@@ -363,11 +365,12 @@ def execute(plan):
                 raise Violation(ID, "seed_ignored", "seed and seed+1 give identical opacities "
                                 "with subsampling")
             bump("seed_sensitivity_checks")
-        # ---- fault: the k-th solve fails -------------------------------------------------------
+        # ---- faults: the k-th solve fails / the call is interrupted at the n-th dreye line ------
         if plan.get("fault"):
+            est3 = build(plan)
             k = plan["fault"]["k"] % len(ev)
             with SolveSeam(fail_at={k}) as s1:
-                out4 = call(run_decomp, plan, build(plan))
+                out4 = call(run_decomp, plan, est3)
             steps += s1.count
             if s1.fired:
                 bump("fault:solver_error")
@@ -379,6 +382,30 @@ def execute(plan):
             if out4.value not in ("SolverError", "RuntimeError"):
                 raise Violation(ID, "fault_changes_failure_mode",
                                 f"injected SolverError surfaced as {out4.brief()}", k=k)
+            # interruption (Ctrl-C) somewhere inside the call, on the same estimator
+            with LineInterrupter(None) as li0:
+                call(run_decomp, plan, build(plan))
+            if li0.count:
+                n_int = int(plan["fault"].get("frac", 0.5) * li0.count)
+                with LineInterrupter(n_int) as li:
+                    try:
+                        call(run_decomp, plan, est3)
+                    except SimInterrupt:
+                        bump("fault:line_interrupt")
+                log.add("interrupted", li.fired_at)
+            # nothing may be left behind: the same request on the same estimator, unfaulted
+            out5 = call(run_decomp, plan, est3)
+            log.add("after_faults", out5)
+            if not out5.ok:
+                raise Violation(ID, "failed_call_leaves_state_behind",
+                                f"after a failed and an interrupted call the same request raised "
+                                f"{out5.brief()}")
+            X5, P5, _ = (np.asarray(v) for v in out5.value)
+            if X5.tobytes() != X.tobytes() or P5.tobytes() != P.tobytes():
+                raise Violation(ID, "failed_call_leaves_state_behind",
+                                f"after a failed and an interrupted call the same request (same "
+                                f"seed) gives another result: max|dX|={np.max(np.abs(X5 - X)):.3g} "
+                                f"max|dP|={np.max(np.abs(P5 - P)):.3g}")
     except Violation as v_:
         violation = v_.as_dict()
     nontrivial = iters_run >= 2
